@@ -21,8 +21,6 @@ TRUSTED = ["model: C06.exportTree / C06.parseTree / C06.project (lean/Srctools/M
 NOT_MODELLED = [
     "text level: the tokenizer, escape_text and Keyvalues.parse (subject of C01/C02/C03) - exercised here by the search oracle only; "
     "a theorem C06_text composing the tree-level theorems with C01_roundtrip is not stated",
-    "in comma_sep outputs a comma inside the parameter field (re-joined by the reader) is modelled and tested but excluded from the "
-    "theorems (hypothesis OutOK) - the only reason the two main theorems are still called _partial",
     "float parsing: numbers are carried as tokens; that the implementation's formatter/parser pair is the identity on them and within "
     "5e-7 / six significant digits of the original value is checked on the implementation only (search oracle), formally it belongs to C05",
     "int() / float() corner forms (surrounding whitespace, '_' separators, non-ASCII digits) and str.casefold() outside ASCII",
@@ -490,8 +488,8 @@ def replay_known(ctx, finding):
 
 
 LEVEL_TEXT = ("Lean theorems about an executable tree-level model of VMF.export / VMF.parse (all classes, id managers, displacement and "
-              "Strata data included): C06_tree_roundtrip_partial (parseTree true (exportTree o m) = ok (project o m)) and "
-              "C06_fixed_point_partial (the second export equals the first) are proved for every well-formed map "
+              "Strata data included): C06_tree_roundtrip (parseTree true (exportTree o m) = ok (project o m)) and "
+              "C06_fixed_point (the second export equals the first) are proved for every well-formed map "
               "(displacement arrays incl. multiblend and Strata point data are inside the round-trip theorem) and every option set, with per-structure theorems for entities, outputs, solids, "
               "faces, visgroups, groups, cameras, cordons and viewports; C06_keys_written_are_read re-checks on every run that every key "
               "written by an export is read by the matching parse in the current source. The model is tied to the code by a node-for-node "
